@@ -18,7 +18,10 @@ RULE = ("(1) Parameter(**d).get_ref_value(v) on the FULL cross product Type x De
         "(2) end-to-end templates with declared / undeclared / pseudo-parameter names, supplied and unsupplied values, SSM strings, "
         "references in typed and generic positions; (3) for every NoEcho parameter a fresh random token is supplied: the token must not occur "
         "anywhere in the JSON-mode dump of Conditions+Resources and the result must equal the one obtained with a second token; "
-        "(4) has_hardcoded_credentials on resources / IAM users whose credential fields are literals or references to NoEcho parameters. "
+        "(4) has_hardcoded_credentials on resources / IAM users whose credential fields are literals or references to NoEcho parameters; "
+        "(5) histories: one model (or freshly parsed models of one template) resolved with several parameter assignments in a row that differ in exactly "
+        "the key its conditions / references depend on (pseudo, undeclared, declared with and without Default), incl. the SAME dict object handed over "
+        "again -- every answer must be the one a fresh process gives. "
         "non-trivial = the case involves a declared parameter that is referenced, or a non-default table row; distinct by input hash.")
 ASSUMPTIONS = [
     "str() of a float Default is carried as text; list/dict Defaults for scalar parameters are outside the domain (EUndefined)",
